@@ -225,7 +225,52 @@ def make_dot8_summary(c, ctx):
     return f
 
 
-def make_scalar_summary(c, ctx):
+_scalar_post = {}
+
+
+def scalar_post(mod):
+    """{op: 'canon' | 'u64'}: the range of the scalar primitives' results as PROVED in kernel mode on the current tree (cached per
+    tree): the header promises no more than "some 64-bit representation", but code may legitimately rely on what the routine
+    really delivers (the pinned `mul` always returns the canonical representative).  A range that is not proved is 'u64'."""
+    from . import front
+    import json, os
+    key = id(mod)
+    if key in _scalar_post:
+        return _scalar_post[key]
+    path = None
+    try:
+        path = os.path.join(front.cache_dir(), 'scalar_post.json')
+        if os.path.exists(path):
+            _scalar_post[key] = json.load(open(path))
+            return _scalar_post[key]
+    except (OSError, ValueError):
+        pass
+    out = {}
+    try:
+        from . import kprove
+        smod = front.module('avx2', sroa=True)
+        for c in SCALAR:
+            try:
+                name = smod.find(c['sig'])
+                sp = {'add': (lambda A: A['a'] + A['b']), 'sub': (lambda A: A['a'] - A['b']), 'mul': (lambda A: A['a'] * A['b'])}[c['op']]
+                r = kprove.prove_cells(smod, name, 3, [(1, 0, 'a', 'u64'), (2, 0, 'b', 'u64')], [(0, 0)], [sp], post='canon', budget=20000)
+                out[c['op']] = 'canon' if (not r.failures and not r.undecided and r.cells > 0) else 'u64'
+            except Exception:
+                out[c['op']] = 'u64'
+    except Exception:
+        out = {}
+    _scalar_post[key] = out
+    if path and out:
+        try:
+            with open(path + '.tmp%d' % os.getpid(), 'w') as f:
+                json.dump(out, f)
+            os.replace(path + '.tmp%d' % os.getpid(), path)
+        except OSError:
+            pass
+    return out
+
+
+def make_scalar_summary(c, ctx, post='u64'):
     op = c['op']
 
     def f(I, args, ins):
@@ -241,7 +286,7 @@ def make_scalar_summary(c, ctx):
             nf = (x.nf - y.nf).modp()
         else:
             nf = ctx.mul(x.nf, y.nf)
-        I.store_cell(r, FV(nf, 'u64'), 8)
+        I.store_cell(r, FV(nf, post), 8)
         return None
     return f
 
@@ -317,8 +362,9 @@ def wrapper_summaries(mod, ctx, scalar=True, only=None):
     for c in DOT8:
         put(c['sig'], make_dot8_summary(c, ctx))
     if scalar:
+        sp_ = scalar_post(mod)
         for c in SCALAR:
-            put(c['sig'], make_scalar_summary(c, ctx))
+            put(c['sig'], make_scalar_summary(c, ctx, sp_.get(c['op'], 'u64')))
         for c in SCALAR_RET:
             put(c['sig'], make_incdec_summary(c, ctx))
         put('Goldilocks::toU64(unsigned long&, %s const&)' % E, toU64_summary(ctx))
